@@ -340,6 +340,9 @@ def gen_scenario(rng, thorough=False, force=None):
     if target == 'single':
         sc['api'] = force.get('api') or rng.choice(['multi_run', 'MultiSim', 'MultiSim', 'initrun'])
         if sc['api'] == 'initrun' and sc['reseed']: sc['reseed'] = None
+        # shrink=True is forwarded to the prepare step too and shrinks the not-yet-initialised copies, which then cannot run
+        # (AttributeError: no attribute 'networks'): outside the statement, noted in notes/C18.md, not generated
+        if sc['api'] == 'initrun': sc['shrink'] = None
         sc['members'] = [dict(cfg=0, seed=cfgs[0]['rand_seed'])]
         r = rng.random()
         if r < 0.35:
@@ -952,6 +955,7 @@ def oracle_permutation(sc):
     """ a list run in a permuted order returns the permuted members """
     import random
     if sc['target'] != 'list' or len(sc['members']) < 2: return []
+    if any(m.get('alias') is not None for m in sc['members']): return []
     if sc.get('reseed'): return []   # an explicitly reseeded list gets seed + position: position dependent by definition
     rng = random.Random(len(canon(sc)))
     perm = rng.sample(range(len(sc['members'])), len(sc['members']))
